@@ -27,6 +27,18 @@ XPath API: map:size, map:keys, map:get, map:contains / array:size, array:get; de
 the literal rendering of the specification value) and compared with the store of the
 specification state: an operand that changed is an immutability violation.
 
+The graph of one configuration is a forest (one tree per seed store); trees are replayed in a fork
+pool, with few seeds the pool is filled below the first operation.  A state is entered only along a
+transition that passed in both bindings (prefix hygiene); a failure seen on a store that earlier
+operations were applied to is confirmed on a freshly rebuilt store (otherwise: check=state_dependence).
+
+Features of a failing case (fingerprints of known findings are sub-patterns): action, binding, check
+(result | result_python_api | immutability | result_projection | api_consistency | xpath_projection |
+deep_equal_projection | state_dependence | seed), outcome, expected, the key classes taking part
+(nan_key, bool_num_keys, qname_string_keys, untyped_mixed_keys, untyped_key - pairs are classified with
+the SameKey table PRINTED BY TLC), hit / dup (relation of the parameter key to the stored keys), policy,
+index class, arr_size, fn, value_kind, and for deep-equal: first_items, lengths, bool_num_atoms, nan_atoms.
+
 Implementation-dependent points are nondeterminism of the spec (several admissible successor
 states for one label): duplicates=use-any, the key retained by duplicates=combine.  Results
 whose order is implementation-dependent (map:keys, map:for-each, ?* on maps, map:find) are
@@ -759,8 +771,8 @@ def features(action, args, src_store, expected, binding, check, outcome) -> dict
         it = src_store[args[0] - 1]['v'][0]
         if is_arr(it):
             f['arr_size'] = str(len(it['r'])) if len(it['r']) < 2 else '2+'
-            # a member that is a sequence of several items, one of them an array
-            f['array_in_sequence_member'] = any(len(m) > 1 and any(is_arr(i) for i in m) for m in it['r'])
+            # at any depth: an array member that is a sequence of several items, one of them an array
+            f['array_in_sequence_member'] = array_in_sequence_member(it)
     if action == 'DeepEqual':
         a, b = src_store[args[0] - 1]['v'], src_store[args[1] - 1]['v']
         f['same_handle'] = args[0] == args[1]
@@ -771,6 +783,15 @@ def features(action, args, src_store, expected, binding, check, outcome) -> dict
         f['bool_num_atoms'] = key_flags(atoms)['bool_num_keys']
         f['nan_atoms'] = any(x['x'] == 'NaN' for x in atoms)
     return f
+
+
+def array_in_sequence_member(arr) -> bool:
+    for m in arr['r']:
+        if len(m) > 1 and any(is_arr(i) for i in m):
+            return True
+        if any(is_arr(i) and array_in_sequence_member(i) for i in m):
+            return True
+    return False
 
 
 def atoms_in(v, out: list):
